@@ -260,7 +260,7 @@ theorem invV_step (c0 : Cfg) (s s' : PSys) (e : Event) (hc : e.cfgOk c0)
       subst hc
       rw [vsys_mk]; show InvV _ { setN (vsys s) i _ with elected := (((vsys s).nodes i).term, i) :: (vsys s).elected }
       have hall : ∀ x ∈ q, (⟨(s.nodes i).term, x, i⟩ : Grant) ∈ s.grants := by
-        have := hg.2.2.2.2.2
+        have := hg.2.2.2.2.2.1
         simp only [List.all_eq_true, List.contains_iff_mem] at this
         exact this
       have hself : (⟨(s.nodes i).term, i, i⟩ : Grant) ∈ s.grants := by
